@@ -198,7 +198,8 @@ fn parse_signed_time_str(timestamp: &str) -> i64 {
     let timestamp_secs_us: i64 = timestamp[offset_timestamp..dot_idx]
         .parse::<i64>()
         .unwrap_or_default()
-        * (US_PER_SEC as i64);
+        .checked_mul(US_PER_SEC as i64)
+        .unwrap_or_default(); // too large is treated like any other parsing error
     let timestamp_fraction_us = if dot_idx < timestamp.len() {
         let timestamp_fraction_str = &timestamp[dot_idx + 1..];
         let mut len_fraction = timestamp_fraction_str.len();
